@@ -117,7 +117,10 @@ def compiler_bin():
 
 def run_driver(name, stdin_text, timeout=600):
     """build (cached per tree) and run the native replay driver binary `name` from /verif/driver against the current tree"""
-    key = tree_hash(); out = os.path.join(CACHE, 'bin', key, name)
+    dh = hashlib.sha256()
+    for root, _, files in sorted(os.walk(os.path.join(VERIF, 'driver'))):
+        for f in sorted(files): dh.update(open(os.path.join(root, f), 'rb').read())
+    key = tree_hash() + '-' + dh.hexdigest()[:10]; out = os.path.join(CACHE, 'bin', key, name)
     if not os.path.exists(out):
         with Lock('native'):
             if not os.path.exists(out):
